@@ -70,7 +70,9 @@ class ProgGen:
         r = self.rng
         if not s.keyed:
             choices = ["map", "filter", "flat_map", "shuffle", "group_by", "fold", "reduce",
-                       "fold_assoc", "reduce_assoc", "gb", "replicate_one", "key_by_fold"]
+                       "fold_assoc", "reduce_assoc", "gb", "replicate_one", "key_by_fold", "map_memo", "unique"]
+            if s.ordered and s.repl == "one":
+                choices += ["rich_map"]
             if in_loop:
                 choices += ["map_st", "map_st"]
             op = r.choice(choices)
@@ -78,6 +80,15 @@ class ProgGen:
             if op == "map":
                 self.add({"id": i, "op": "map", "f": r.choice(MAPS), "in": [s.ref]})
                 return St(i, ordered=s.ordered, repl=s.repl)
+            if op == "map_memo":
+                self.add({"id": i, "op": "map_memo", "f": r.choice(MAPS), "cap": r.choice([1, 2, 8]), "in": [s.ref]})
+                return St(i, ordered=s.ordered, repl=s.repl)
+            if op == "unique":
+                self.add({"id": i, "op": "unique", "in": [s.ref]})
+                return St(i, ordered=False, repl="unlimited")
+            if op == "rich_map":
+                self.add({"id": i, "op": "rich_map", "agg": r.choice(["sum", "max", "count"]), "in": [s.ref]})
+                return St(i, ordered=True, repl="one")
             if op == "map_st":
                 self.add({"id": i, "op": "map_st", "f": r.choice(["add_state", "mix_state"]), "in": [s.ref]})
                 return St(i, ordered=s.ordered, repl=s.repl)
